@@ -460,6 +460,10 @@ func VH_C03_OddNames() { vhC03(vhDefOddNames()) }
 
 func VH_C03_LiteralMB() { vhC03(vhDefLiteralMB()) }
 
+func VH_C03_CaretAlt() { vhC03In(vhDefCaretAlt(), vhInputASCII()) }
+
+func VH_C03_Latin1Class() { vhC03(vhDefLatin1Class()) }
+
 func VH_C03_Canary() {
 	in := vhInput()
 	_, toks, err := vhRunImpl(vhDefLiteral(), in)
